@@ -40,6 +40,10 @@ CreationError = ValueError
 InterpretError = ValueError
 
 
+class ByteAlignError(Error):
+    pass
+
+
 def _is_expr(x):
     return isinstance(x, z3.ExprRef)
 
@@ -489,6 +493,35 @@ class BitStream(Bits):
             else:
                 tmp = value._st
             self._st.replace(a, max(a, b), tmp)
+
+    @property
+    def bytepos(self):
+        if self._pos % 8:
+            raise ByteAlignError('Not byte aligned when using bytepos property.')
+        return self._pos // 8
+
+    @bytepos.setter
+    def bytepos(self, v):
+        self._pos = v * 8
+
+    def overwrite(self, bs, pos=None):
+        """Overwrite with bs at pos (default: the current position); the position moves to the end of bs."""
+        with NoTracing():
+            if not isinstance(bs, Bits):
+                tmp = Bits(auto=bs)
+            else:
+                tmp = bs
+            n = tmp._st.length
+            if n == 0:
+                return
+            at = self._pos if pos is None else pos
+            if at < 0:
+                at += self._st.length
+            if at < 0 or at > self._st.length:
+                raise ValueError('Overwrite starts outside boundary of bitstring.')
+            # (the real library extends the bitstring when the overwrite runs past its end)
+            self._st.replace(at, min(at + n, self._st.length), tmp._st)
+            self._pos = at + n
 
     def _need(self, n):
         """Raise ReadError unless n more bits are available."""
